@@ -49,7 +49,7 @@ Lemma block_lockstep : forall b b' F s s',
   brel O C F b (exec_block O b s) (exec_block O b' s').
 Proof.
   induction b as [|i r IH]; intros b' F s s' Hin HI HF R Hc Hl.
-  - destruct b'; try discriminate. cbn. repeat split; auto. discriminate.
+  - destruct b'; try discriminate. cbn. refine (conj R (conj eq_refl (conj HI (conj HF _)))). discriminate.
   - destruct b' as [|i' r']; try discriminate. cbn [check_insts] in Hc. apply andb_prop in Hc. destruct Hc as [Hj Hc].
     destruct r as [|i2 r].
     + (* terminator *)
@@ -58,10 +58,10 @@ Proof.
       destruct (ovals s (i_args i)) as [a|]; [|exact I]. destruct Hext as [_ Hn]. rewrite <- (Hn i a s s' R).
       assert (X : exit_facts C F [i] = F) by reflexivity.
       destruct (o_next O i a s) as [l|].
-      * destruct (existsb _ (i_args i)) eqn:Ex; cbn; rewrite X; repeat split; auto; try discriminate.
+      * destruct (existsb _ (i_args i)) eqn:Ex; unfold brel; rewrite X; refine (conj R (conj eq_refl (conj HI (conj HF _)))); try discriminate.
         intros x Q. inversion Q. subst x. unfold succs. cbn. apply existsb_exists in Ex. destruct Ex as [o [Io Eo]].
         apply in_flat_map. exists o. split; auto. destruct o; try discriminate. apply N.eqb_eq in Eo. subst. left. reflexivity.
-      * cbn. rewrite X. repeat split; auto. discriminate.
+      * unfold brel. rewrite X. refine (conj R (conj eq_refl (conj HI (conj HF _)))). discriminate.
     + destruct r' as [|i2' r']; try discriminate.
       rewrite last_same_cons in Hl by discriminate.
       change (exec_block O (i :: i2 :: r) s) with (match exec O i s with Stuck => BStuck | Halt => BHalt | Next s1 => exec_block O (i2 :: r) s1 end).
@@ -99,12 +99,12 @@ Lemma check_blocks_nth : forall Es g g', check_blocks C E Es g g' = true -> fora
   end.
 Proof.
   intros Es g. revert Es. induction g as [|b r IH]; intros Es g' H n.
-  - destruct g'; try discriminate. destruct n; reflexivity.
-  - destruct g' as [|b' r']; try discriminate. destruct Es as [|F0 Er]; try discriminate. cbn in H.
-    repeat (apply andb_prop in H; let H2 := fresh "H" in destruct H as [H H2]).
+  - destruct g'; [|destruct Es; discriminate]. destruct n; reflexivity.
+  - destruct g' as [|b' r']; destruct Es as [|F0 Er]; try discriminate. cbn [check_blocks] in H.
+    apply andb_prop in H. destruct H as [H H0]. apply andb_prop in H. destruct H as [H H1].
     destruct n; cbn.
-    + exists b'. auto.
-    + apply IH. exact H0.
+    + exists b'. cbn. repeat split; auto.
+    + apply IH. assumption.
 Qed.
 
 Definition rel_res (r r' : result) : Prop :=
